@@ -87,6 +87,8 @@ def gen_latest_cfg(seed: int) -> dict:
         faults['stall'] = rng.choice([0.001, 0.01])
     if rng.random() < 0.3:
         faults['registry-io-error'] = rng.choice([0.02, 0.1])
+    if rng.random() < 0.25:
+        faults['registry-slow'] = rng.choice([0.02, 0.1])
     return {'seed': seed, 'mode': 'latest', 'nreg': nreg, 'initial': initial, 'selectors': selectors,
             'events': events, 'clients': clients, 'horizon': horizon,
             'kernel': {'policy': rng.choice(['random', 'random', 'pct']), 'preempt_p': rng.choice([0.05, 0.2, 0.5]),
@@ -116,9 +118,17 @@ class FlakyRegistry(posix.Registry):
 
     refresher_errors = 0
 
+    refresher_delay = 0.0
+
     def _maybe_fail(self, what: str):
         k = kmod.current()
-        if k is not None and '_refresh' in k.me().name and k.fault('registry-io-error'):
+        if k is None or '_refresh' not in k.me().name:
+            return
+        if k.fault('registry-slow'):  # a listing that takes (virtual) time - possibly longer than the refresh interval
+            delay = (0.3, 3.0, 40.0)[k.choose(3)]
+            FlakyRegistry.refresher_delay += delay
+            k.sleep(delay, 'registry.slow')
+        if k.fault('registry-io-error'):
             FlakyRegistry.refresher_errors += 1
             raise OSError(f'injected transient storage error while listing {what}')
 
@@ -154,6 +164,7 @@ def simulate_latest(cfg: dict, root: str, schedule: typing.Optional[list] = None
                  for s in cfg['selectors']]
     # the serving side sees the registries through its own directory objects (one per registry, like a gateway)
     FlakyRegistry.refresher_errors = 0
+    FlakyRegistry.refresher_delay = 0.0
     served = [asset.Directory(FlakyRegistry(root / f'reg{i}', staging=root / f'stage{i}')) for i in range(cfg['nreg'])]
     history: list[dict] = []
     trainer_task = {}
@@ -222,7 +233,7 @@ def simulate_latest(cfg: dict, root: str, schedule: typing.Optional[list] = None
             # slack: every stall injected so far (a stalled lock holder delays the refresher just as well) plus one
             # refresh interval per refresh cycle that was lost to an injected storage error
             rec['stall'] = sum(kernel.stalled.values()) + FlakyRegistry.refresher_errors * max(
-                s['refresh'] for s in cfg['selectors'])
+                s['refresh'] for s in cfg['selectors']) + FlakyRegistry.refresher_delay
             history.append(rec)
             kernel.note('selected', json.dumps(rec['result']))
 
@@ -467,6 +478,87 @@ def run_abtest(cfg: dict) -> dict:
     return out
 
 
+def gen_abc_cfg(seed: int) -> dict:
+    """A/B selection from several threads at once (the serving wrapper calls select() from a thread pool)."""
+    rng = random.Random(seed)
+    cfg = gen_ab_cfg(seed)
+    cfg.update(mode='abtest-concurrent', threads=rng.randint(2, 4), per_thread=rng.choice([2, 5, 12, 30]),
+               kernel={'policy': 'random', 'preempt_p': rng.choice([0.1, 0.3, 0.6]), 'faults': {}, 'max_steps': 200000})
+    return cfg
+
+
+def simulate_abtest_concurrent(cfg: dict, schedule: typing.Optional[list] = None) -> dict:
+    logging.disable(logging.CRITICAL)
+    directory = asset.Directory(posix.Registry(AB_TEMPLATE / 'reg', staging=AB_TEMPLATE / 'stage'))
+    variants = cfg['variants']
+    first, *rest = variants
+    builder = application.ABTest.compare('pa', first['release'], first['generation'], first['target'])
+    for var in rest[:-1]:
+        builder = builder.over(var['generation'], release=var['release'], target=var['target'])
+    selector = builder.against(rest[-1]['generation'], release=rest[-1]['release'], target=rest[-1]['target'])
+    kcfg = dict(cfg['kernel'])
+    kcfg.update(trace_files=seams.TRACE_FILES, trace_entry_files=seams.TRACE_ENTRY_FILES, keep_log=False)
+    if schedule is not None:
+        kcfg['schedule'] = list(schedule)
+    kernel = kmod.Kernel(cfg['seed'], kcfg)
+    picks: list = []
+    errors: list = []
+
+    def client():
+        for _ in range(cfg['per_thread']):
+            try:
+                gen = selector.select(directory, None, None)._generation  # pylint: disable=protected-access
+                picks.append([str(gen.release.key), int(gen.key)])
+            except Exception as err:  # pylint: disable=broad-except
+                errors.append(f'{type(err).__name__}: {err}')
+            kernel.yield_('client.next')
+
+    def main():
+        tasks = [kernel.spawn(client, f'selector{i}', 'thread') for i in range(cfg['threads'])]
+        for task in tasks:
+            while task.state != kmod.DONE:
+                kernel.block(('join', task.tid), None, 'main.join')
+
+    outcome = 'completed'
+    try:
+        kernel.run(main)
+    except (kmod.Deadlock, kmod.StepBudget) as err:
+        outcome = f'{type(err).__name__}: {err}'
+    return {'picks': picks, 'errors': errors, 'outcome': outcome, 'steps': kernel.step, 'switches': kernel.switches,
+            'stats': dict(kernel.stats), 'probes': dict(kernel.probes), 'digest': kernel.digest(),
+            'decisions': kernel.decisions}
+
+
+def judge_abtest_concurrent(cfg: dict, result: dict) -> list[dict]:
+    out = []
+    targets = [v['target'] for v in cfg['variants']]
+    if result['outcome'] != 'completed':
+        out.append({'class': 'hang', 'detail': result['outcome'][:200]})
+    if result['errors']:
+        out.append({'class': 'selection-failed', 'detail': f'ABTest targets {targets}, {cfg["threads"]} threads: '
+                                                           f'{result["errors"][0]}'})
+        return out
+    shares = reference_shares(targets)
+    ids = [[v['release'], v['generation']] for v in cfg['variants']]
+    n = len(result['picks'])
+    counts = [sum(1 for p in result['picks'] if p == i) for i in ids]
+    if sum(counts) != n:
+        out.append({'class': 'wrong-selection', 'detail': f'ABTest returned something that is not a variant: {result["picks"][:5]}'})
+        return out
+    # selections are serialised by the selector: the totals are those of SOME sequential history of n requests
+    worst = max(range(len(ids)), key=lambda i: abs(counts[i] - shares[i] * n))
+    dev = abs(counts[worst] - shares[worst] * n)
+    if dev > 1 + 1e-9:
+        vio = {'class': 'share-bound', 'detail': f'ABTest targets {targets} (shares {[round(s, 4) for s in shares]}) '
+                                                 f'selected from {cfg["threads"]} threads at once: after {n} requests '
+                                                 f'variant {worst} was selected {counts[worst]} times, target '
+                                                 f'{shares[worst] * n:.3f}'}
+        if len(ids) >= 3 and counts == [first_eligible_sequence(shares, n).count(i) for i in range(len(ids))]:
+            vio['known_id'] = KNOWN_AB
+        out.append(vio)
+    return out
+
+
 # ------------------------------------------------------------------------------------------------
 # seed-level entry points
 # ------------------------------------------------------------------------------------------------
@@ -496,6 +588,20 @@ def run_seed(job) -> dict:
             out['sample'] = {'seed': seed, 'mode': 'abtest', 'variants': cfg['variants'], 'n': cfg['n'],
                              'counts': res.get('counts'), 'max_deviation': round(res['max_dev'], 4)}
         return out
+    if mode == 'abtest-concurrent':
+        cfg = gen_abc_cfg(seed)
+        try:
+            result = runmod.fork_run(simulate_abtest_concurrent, cfg, real_timeout=240, seed=seed)
+        except runmod.RunFailed as err:
+            out['harness'] = str(err)[:1500]
+            return out
+        out.update(digest=result['digest'], steps=result['steps'], vtime=0.0, stats=result['stats'], probes=result['probes'],
+                   nreq=len(result['picks']), nvar=len(cfg['variants']), max_dev=0.0)
+        out['violations'] = [{**v, 'cfg': cfg, 'decisions': result['decisions']} for v in judge_abtest_concurrent(cfg, result)]
+        if seed % 40 == 2:
+            out['sample'] = {'seed': seed, 'mode': mode, 'variants': cfg['variants'], 'threads': cfg['threads'],
+                             'per_thread': cfg['per_thread'], 'picks': result['picks'][:8], 'switches': result['switches']}
+        return out
     cfg = gen_latest_cfg(seed)
     try:
         result, violations = execute_latest(cfg)
@@ -515,7 +621,10 @@ def run_seed(job) -> dict:
 
 def reproduces(cfg: dict, schedule, klass: str) -> typing.Optional[dict]:
     try:
-        if cfg['mode'] == 'abtest':
+        if cfg['mode'] == 'abtest-concurrent':
+            result = runmod.fork_run(simulate_abtest_concurrent, cfg, schedule, real_timeout=240, seed=cfg['seed'])
+            violations = judge_abtest_concurrent(cfg, result)
+        elif cfg['mode'] == 'abtest':
             res = runmod.fork_run(run_abtest, cfg, real_timeout=120, seed=cfg['seed'])
             violations = res['violations']
         else:
@@ -537,6 +646,15 @@ def minimise(cfg: dict, klass: str, budget: int = 50):
     witness = attempt(cfg)
     if witness is None:
         return cfg, None, {'class': klass, 'detail': 'not reproduced on re-execution'}
+    if cfg['mode'] == 'abtest-concurrent':
+        best = cfg
+        for per in (2, 5, 12):
+            if per < best['per_thread']:
+                got = attempt({**cfg, 'per_thread': per})
+                if got is not None:
+                    best, witness = {**cfg, 'per_thread': per}, got
+                    break
+        return best, None, witness
     if cfg['mode'] == 'abtest':
         best = cfg
         for n in (5, 10, 20, 50, 100, 200, 500):
@@ -606,7 +724,8 @@ def main(argv: list[str]) -> int:
     print(f'{PROP} seed={seed0} tier={tier} seeds<={nseeds} budget={budget}s')
     base.clean_replays(PROP)
     start = time.monotonic()
-    jobs = [(seed0 * 100000 + i, 'abtest' if i % 4 == 3 else 'latest') for i in range(nseeds)]
+    jobs = [(seed0 * 100000 + i, 'abtest' if i % 4 == 3 else 'abtest-concurrent' if i % 8 == 6 else 'latest')
+            for i in range(nseeds)]
     results, errors, exhausted = base.sweep(run_seed, jobs, budget, per_item_limit_s=600)
     base.emit_digests(results)
     open_ids = {f['id'] for f in base.open_findings(PROP)}
@@ -655,7 +774,7 @@ def main(argv: list[str]) -> int:
         print(f'  class={klass}: {witness["detail"][:400]}')
         nviol += 1
     wall = time.monotonic() - start
-    nruns = counts['latest'] + counts['abtest']
+    nruns = counts['latest'] + counts['abtest'] + counts['abtest-concurrent']
     coverage = {
         'evaluations': nruns,
         'distinct_nontrivial': len(digests),
@@ -668,6 +787,7 @@ def main(argv: list[str]) -> int:
         'latest_runs': counts['latest'], 'latest_selections_judged': counts['latest_requests'],
         'registry_states_on_timelines': counts['commits'],
         'abtest_histories': counts['abtest'], 'abtest_requests': counts['abtest_requests'],
+        'abtest_concurrent_runs': counts['abtest-concurrent'], 'abtest_concurrent_selections': counts['abtest-concurrent_requests'],
         'abtest_max_deviation_seen': round(maxdev, 4), 'abtest_known_finding_hits': counts['known_hits'],
         'seeds': [jobs[0][0], jobs[len(results) - 1][0]] if results else [],
         'runs_per_hour': round(nruns / wall * 3600) if wall else 0,
